@@ -1,1 +1,106 @@
-//! Engine B: interleaved callers of the library (C17).
+//! Engine B: interleaved callers of the library (C17). DESIGN.md section 5.
+//!
+//! K real OS threads run scripts of calls into the real typstyle-core (built from /repo with
+//! `--cfg typstyle_verif`). At every `verif::point` the thread meets the simulator: a seeded
+//! scheduler decides who runs next (baton hand-off, exactly one thread runs between two
+//! points), and may abandon (unwind) the current call. Every returned result is compared with
+//! a reference obtained from a fresh single-call process, in two different "worlds".
+
+pub mod exec;
+pub mod refproc;
+pub mod sched;
+pub mod shrink;
+pub mod workload;
+
+use serde::{Deserialize, Serialize};
+
+use crate::oracle::Cfg;
+
+#[derive(Serialize, Deserialize, Clone, Debug, PartialEq, Eq, Hash)]
+pub enum Op {
+    /// `Typstyle::new(cfg).format_content(text)`
+    Content,
+    /// `Typstyle::new(cfg).format_source(&shared_source)` - the Source is shared by all threads
+    Source,
+    /// `format_source_inspect` with an inspector that renders the document once more
+    Inspect,
+    /// `shared_typstyle.format_source_range(&shared_source, range)`
+    Range { start: usize, end: usize },
+    /// `format_with_width(text, cfg.column)`
+    Width,
+}
+
+#[derive(Serialize, Deserialize, Clone, Debug, PartialEq, Eq, Hash)]
+pub struct Call {
+    pub op: Op,
+    pub doc: usize,
+    pub cfg: Cfg,
+    /// editor session: the text of this call is the result of this thread's previous call
+    /// (if that returned text), not `docs[doc]`; the Source is then the call's own
+    #[serde(default)]
+    pub feed_prev: bool,
+}
+
+#[derive(Serialize, Deserialize, Clone, Debug, PartialEq, Eq)]
+pub enum Policy {
+    /// switch with probability p/1000 at every point
+    Uniform { p_milli: u32 },
+    /// PCT style: random priorities, d priority change points
+    Pct { d: u32 },
+    /// one thread is frozen mid-call for a long stretch
+    Stall { p_milli: u32 },
+    /// switch only at call boundaries
+    CallAtomic,
+    /// explicit: thread chosen at each yield index (recorded from a run, or minimised)
+    Explicit(Vec<u8>),
+}
+
+/// abandon (unwind) thread `tid`'s `call`-th call at its `point`-th hook point
+#[derive(Serialize, Deserialize, Clone, Debug, PartialEq, Eq)]
+pub struct Abandon {
+    pub tid: usize,
+    pub call: usize,
+    pub point: u32,
+}
+
+#[derive(Serialize, Deserialize, Clone, Debug, PartialEq, Eq)]
+pub struct Scenario {
+    pub seed: u64,
+    pub docs: Vec<String>,
+    pub threads: Vec<Vec<Call>>,
+    pub policy: Policy,
+    pub abandons: Vec<Abandon>,
+}
+
+#[derive(Serialize, Deserialize, Clone, Debug, PartialEq, Eq, Hash)]
+pub enum Res {
+    Ok(String),
+    /// inspect: result + digest of the inspected document rendered at width 120
+    OkInspect(String, u64),
+    RangeOk(usize, usize, String),
+    Err,
+    Panic,
+    Abandoned,
+}
+
+#[derive(Serialize, Deserialize, Clone, Debug, PartialEq, Eq)]
+pub struct Violation17 {
+    /// V17.1-result | V17.2-panic | V17.3-worlds | V17.4-rerun
+    pub invariant: String,
+    pub tid: usize,
+    pub call: usize,
+    pub message: String,
+}
+
+#[derive(Serialize, Deserialize, Clone, Debug)]
+pub struct Replay17 {
+    pub engine: String,
+    pub property: String,
+    pub scenario: Scenario,
+    /// seeds of runs executed in the same process before the failing one (state that crossed a
+    /// run boundary); empty when the scenario fails alone in a fresh process
+    pub prefix_seeds: Vec<u64>,
+    pub violation: Violation17,
+    pub result_digest: u64,
+    pub note: String,
+}
